@@ -15,7 +15,7 @@ Fixpoint stmt_binders (s : stmt) : list string :=
   | SNop | SPanic _ => []
   | SSimple _ _ _ _ | SCmp _ _ _ _ _ | SUnit _ _ _ _ | SRange _ _ _ _ _ | SLike _ _ _ _
   | SClosure _ _ _ _ | SMapLen _ _ _ _ => []
-  | SString _ _ _ _ _ => [name_str NTmp; name_str NActual]
+  | SString _ _ _ _ _ => ["__assert_struct_scrutinee"%string; name_str NTmp; name_str NActual]
   | SRegex _ _ _ _ => [name_str NRe]
   | SVariant _ _ _ binders body _ => flat_map (opt_binder NElem) binders ++ flat_map stmt_binders body
   | SStruct _ _ _ fields _ body _ => map field_binder_str fields ++ flat_map stmt_binders body
